@@ -184,10 +184,10 @@ func classify(t types.Type) Kind {
 			case *types.Struct:
 				return KOpaque
 			case *types.Interface:
-				if full == "encoding/json.Marshaler" {
-					return KIface
+				if full == "reflect.Type" {
+					return KOpaque
 				}
-				return KOpaque
+				return KIface
 			case *types.Basic, *types.Slice, *types.Map, *types.Signature:
 				_ = u
 				// fallthrough to underlying handling (e.g. url.Values, reflect.Kind)
@@ -375,10 +375,10 @@ func BCat(a, b *Term) *Term {
 		return a
 	}
 	if a == BytesNil || a == BytesLit("") {
-		if b.Op == "lit" || b.Op == "app" {
-			if b == BytesNil {
-				return a
-			}
+		if b == BytesNil {
+			return a
+		}
+		if b.Op == "lit" || b.Op == "app" || b.Op == "var" {
 			return b
 		}
 	}
@@ -493,6 +493,10 @@ func theoryAxioms(all []*Term) []*Term {
 			continue
 		}
 		switch t.Name {
+		case "tagOf":
+			// the nil interface value is unique
+			nilItem := Var("nilItem", SItem)
+			ax = append(ax, Eq(mk("app", "tagOf", TagSort, nilItem), TagNil), Implies(Eq(t, TagNil), Eq(t.Args[0], nilItem)))
 		case "slen":
 			ax = append(ax, Ge(t, IntLit(0)), Iff(Eq(t, IntLit(0)), Eq(t.Args[0], empty)))
 		case "blen":
@@ -859,6 +863,12 @@ func (ex *Exec) merge(c *Term, a, b Value) Value {
 	case *ReflVal:
 		y := b.(*ReflVal)
 		return &ReflVal{IV: ex.merge(c, x.IV, y.IV).(*IfaceVal)}
+	case *HostVal:
+		y := b.(*HostVal)
+		if x == y {
+			return x
+		}
+		return &HostVal{Kind: x.Kind, V: ex.merge(c, x.V, y.V)}
 	case *MapContent:
 		y := b.(*MapContent)
 		if x == y {
